@@ -388,6 +388,8 @@ fn main() {
         let _: Option<TestRng> = None;
         let mut runner = TestRunner::new(config);
         let first_fail: RefCell<Option<String>> = RefCell::new(None);
+        // the case that failed first, unshrunk (fallback when a shrunk free-mode case does not reproduce)
+        let first_case: RefCell<Option<(Case, Fail)>> = RefCell::new(None);
         let result = runner.run(&strategy, |case| {
             // while proptest shrinks: keep to the signature class of the first failure
             match ctx.eval(&case, phase) {
@@ -399,6 +401,7 @@ fn main() {
                     match &*ff {
                         None => {
                             *ff = Some(class);
+                            *first_case.borrow_mut() = Some((case.clone(), f.clone()));
                             Err(TestCaseError::fail(f.msg))
                         }
                         Some(c) if *c == class => Err(TestCaseError::fail(f.msg)),
@@ -410,11 +413,16 @@ fn main() {
         match result {
             Ok(()) => {}
             Err(TestError::Fail(_, case)) => {
-                let f = (0..6).find_map(|_| (def.check)(&case).fail).unwrap_or(Fail {
-                    msg: "failure did not reproduce on the shrunk case (schedule dependent)".into(),
-                    sig: first_fail.borrow().clone().unwrap_or_default(),
-                });
-                report_violation(&args, &ctx, case, f, phase);
+                let class = first_fail.borrow().clone().unwrap_or_default();
+                match (0..8).find_map(|_| (def.check)(&case).fail.filter(|f| sig_class(&f.sig) == class)) {
+                    Some(f) => report_violation(&args, &ctx, case, f, phase),
+                    None => {
+                        // schedule dependent and shrunk too far: report the case that actually failed
+                        let (c0, f0) = first_case.borrow().clone().expect("a failure was recorded");
+                        println!("note: proptest's shrunk case did not reproduce in 8 repetitions; reporting the originally failing case");
+                        report_violation(&args, &ctx, c0, f0, phase);
+                    }
+                }
             }
             Err(TestError::Abort(why)) => {
                 println!("INCONCLUSIVE proptest aborted: {why}");
